@@ -657,3 +657,136 @@ func (c *pctx) update(t *rapid.T) (string, int) {
 func Describe(fs []string) string { return strings.Join(fs, "+") }
 
 var _ = fmt.Sprint
+
+// ---------------------------------------------------------------------------
+// Rewrite-biased programs (C04): shapes that sit on the preconditions of the
+// compiler's optimizations.
+
+var rwLiterals = []string{"[1,2,3]", "[1,[2],{\"a\":3}]", "[1,.,3]", "[1,(2,3)]", "[1|2]", "[]", "[[]]", "[-1,-1.5]", "[\"a\",\"b\"]", "[null,true,false]", "[1,2|3]", "[1,2][0]", "[.[]?]",
+	"[1,-1,+1]", "[1,2,3][1:]", "[[1,2],[3]]", "[{}]", "[1,\"a\",null,[],{}]", "[-1[0]?]", "[1,2,3,4,5,6,7,8]", "[1,empty,2]", "[1,error?,2]", "[(1,2),(3,4)]", "[1,2] | .[0]", "[.,1]", "[1,.a?]",
+	"{\"a\":1,\"b\":[2]}", "{a:1,a:2}", "{a:1,b:.}", "{(1|\"a\"):2}", "{\"a\":{\"b\":{}}}", "{a:-1}", "{\"a\\(\"b\")\":1}", "{a:(1,2)}", "{a:1}|.a", "{\"a\":1}[\"a\"]", "{}", "{a:{}}", "{a:[]}", "{a:[1,{b:2}]}",
+	"{\"a\":1,\"a\":2,\"b\":3}", "{a:1,\"a\":2}", "{(\"a\",\"b\"):1}", "{a:1,b:2,c:3,d:4}", "{a:null,b:true,c:false}", "{\"\":1}", "{a:1}.a", "{a:{b:1}}.a.b", "{a:-1,b:-1.5}", "{a:.}", "{a:1,b:empty}", "{@base64 \"x\":1}?",
+	"-1", "-1[0]?", "-1.5", "-(1)", "-1 | -.", "+1", "-0", "(-\"a\")?", "(-.a)?", "- 1", "-1e1", "-100000000000000000000", "-(-1)", "1 - -1", "[.[]? | -.]?", "-1 as $x | -$x", "(+.)?", "+.a?",
+	".a", ".\"a\"", ".[\"a\"]", ".[0]", ".[-1]", ".[1:2]", ".[:2]", ".[1:]", ".[\"a\"[0:1]]?", ".[0,1]?", ".[(\"a\",\"b\")]?", ".[1:2][0]?", ".[.a]?", ".a.b?", ".a[0]?", ".[0].a?", ".a?.b?", ".[1.5]?", ".[null:1]?", ".[:null]?", ".[-2:]",
+	".[\"a\"]?[\"b\"]?", ".a[1:]?", ".[1:][1:]?", ".a as $x | .b?", ".[\"a\",\"b\"]?", ".[1e0]?", ".[-1:][0]?", ".[\"a\" + \"b\"]?", ".[(1|.)]?",
+}
+
+var rwArgs = []string{".", "1", "\"a\"", ".a", "-1", "[1]", "{}", "(label $l | .)", "(. as $y | $y)", "empty", "error", ".[]?", "(1,2)", "length", "null", "true", "(label $l | 1)", "(1 as $q | $q)", ".[0]?", "(.a?, .b?)", "\"a\\(.)\"?", "(try error catch .)", "(reduce .[]? as $i (0; . + 1))", "(if . then 1 else 2 end)", "first(1,2)", "[.]", "(label $l | ., break $l)", "$__loc__.line", "(. // 1)", "-(1)", "-.a?", "(.a?)"}
+
+var rwOps = []string{"+", "-", "*", "/", "%", "==", "!=", "<", "<=", ">", ">=", "and", "or", "//"}
+
+var rwPaths = []string{".a", ".a.b", ".[0]", ".a[1:2]", ".[\"a\"]", "(.a)", "(.a).b", ".a[0].b[1:]", ".[-1]", ".a[.b]", ".[1.5]", ".\"a\"", ".a.\"b\"", ".[1:]", ".[:1]", ".a[0]", ".[0][0]", ".a[\"b\"]", ".[\"abc\"[1:]]", ".[-1[0]?]", ".[0:1][0]", ".a[1:][1:]", "(.a[0])", "((.a).b).c", ".[2]", ".a[5]", ".[\"a\"].b[0]", ".a[null:1]", ".[1:null]"}
+
+var rwRHS = []string{"1", ".", ".b", "(1,2)", "empty", "error(\"x\")", "[.]", "null", ".a", "length?", "\"s\"", "{}", "[1,2]", "(.a, 2)"}
+
+var rwConds = []string{".", ".a", "true", "false", "null", "(true,false)", "empty", "error?", ".[]?", "(1 as $x | $x)", ". == 1", "length? > 1", ".a?", "(.a?, .b?)", "1", "[]", "(null, 1)", "isempty(.[]?)", "not"}
+
+var rwBranches = []string{"1", "2", "true", "false", "\"a\"", "null", "[]", "{}", ".", ".a?", "empty", "(1,2)", "-1", "[1]", "error(\"e\")"}
+
+var rwTail = []string{
+	"def f: if . > 0 then . - 1 | f else . end; f",
+	"def f: if length > 3 then . else . + [1] | f end; f",
+	"def f: . as $x | if $x > 2 then . else $x + 1 | f end; f",
+	"def f: try (if . > 2 then error else . + 1 | f end) catch .; f",
+	"def f: if . > 2 then . else (. + 1 | f) + 1 end; f",
+	"def f: if . > 2 then . else (. + 1, . + 2) | f end; [f]",
+	"def f: if . > 3 then . else . + 1 | f, . end; [f]",
+	"def f: def g: if . > 3 then . else . + 1 | f end; g; f",
+	"def f(g): if . > 3 then . else g | f(g) end; f(. + 1)",
+	"def f: (. + 1 | if . > 5 then . else f end) // .; f",
+	"def f: .[1:] | if length > 0 then f else \"done\" end; f",
+	"def f: if . < 3 then (. + 1 | f) else empty end; [f]",
+	"def f: if . < 3 then ., (. + 1 | f) else . end; [f]",
+	"def f: if . < 3 then (. + 1 | f), . else . end; [f]",
+	"def f($n): if $n > 0 then f($n - 1) else . end; f(3)",
+	"def f: if . < 3 then . + 1 | f | . + 10 else . end; f",
+	"def f: if . < 3 then . + 1 | f else . end; f | f",
+	"def f: if . < 3 then . + 1 | f else . end; [f, f]",
+	"def f: def g: if . < 3 then . + 1 | g else . end; g | if . < 6 then . + 3 | f else . end; f",
+	"def f: if . < 4 then (. + 1 | label $l | f) else . end; f",
+	"def f: if . < 4 then . + 1 | f? else error end; try f catch \"c\"",
+	"def f: if . < 4 then . + 1 | . as [$a] ?// $a | f else . end; f",
+	"def f: reduce (1,2) as $i (.; . + $i) | if . < 10 then f else . end; f",
+	"def f: if . < 3 then {a: (. + 1 | f)} else . end; f",
+	"def f: if . < 3 then [. + 1 | f] else . end; f",
+	"def f: if . < 3 then . + 1 | f elif . < 6 then . + 2 | f else . end; f",
+	"def f: . + 1 | if . < 3 then f else ., (if . < 5 then f else empty end) end; [f]",
+	"def f: if type == \"number\" and . < 3 then (. + 1 | f) // \"alt\" else null end; f",
+	"def f: if . < 3 then \"x\\(. + 1 | f)\" else \"\" end; f",
+	"def f: if . < 3 then first(. + 1 | f) else . end; f",
+	"def f: if . < 3 then . + 1 | f | f else . end; f",
+	"def f: def f: 7; if . < 3 then . + 1 | f else . end; f",
+	"def f: if . < 3 then (. + 1) as $x | $x | f else . end; f",
+	"def g: if . < 2 then . + 1 | g else . end; def f: if . < 4 then . + 1 | g | f else . end; f",
+	"[recurse(if . < 3 then . + 1 else empty end)]",
+	"[limit(5; repeat(1))]", "last(range(5))", "[range(0; 10; 3)]", "until(. > 4; . + 1)", "[while(. < 3; . + 1)]",
+}
+
+// RewriteBiased generates programs aimed at the optimization preconditions.
+func RewriteBiased(conf Conf) *rapid.Generator[Prog] {
+	small := conf
+	small.MaxNodes = 8
+	return rapid.Custom(func(t *rapid.T) Prog {
+		budget := rapid.IntRange(2, small.MaxNodes).Draw(t, "budget")
+		c := &pctx{conf: small, feats: map[string]bool{}, budget: &budget}
+		hole := func() string {
+			if rapid.IntRange(0, 3).Draw(t, "holekind") == 0 {
+				b := rapid.IntRange(2, 8).Draw(t, "hb")
+				c.budget = &b
+				return c.sub(t, pPost)
+			}
+			return pick(t, "arg", rwArgs)
+		}
+		var core string
+		switch rapid.IntRange(0, 9).Draw(t, "rwkind") {
+		case 0, 1:
+			c.feat("rw/literal")
+			core = pick(t, "lit", rwLiterals)
+		case 2, 3:
+			c.feat("rw/args")
+			op := pick(t, "op", rwOps)
+			core = "(" + hole() + ") " + op + " (" + hole() + ")"
+			if rapid.IntRange(0, 3).Draw(t, "native") == 0 {
+				core = pick(t, "nat", []string{"has(%s)?", "ltrimstr(%s)?", "contains(%s)?", "index(%s)?", "join(%s)?", "split(%s)?", "flatten(%s)?", "getpath(%s)?", "setpath([\"a\"]; %s)?", "range(%s)?", "limit(%s; 1,2,3)?", "error(%s)?", "[.[]?] | sort_by(%s)?", "test(%s)?", "splits(%s)?", "ascii_downcase | ltrimstr(%s)?", "tojson | startswith(%s)"})
+				core = fmt.Sprintf(core, hole())
+			}
+		case 4, 5:
+			c.feat("rw/const-path")
+			core = pick(t, "path", rwPaths) + " " + pick(t, "asg", []string{"=", "=", "=", "|=", "+=", "//="}) + " " + pick(t, "rhs", rwRHS)
+		case 6, 7:
+			c.feat("rw/if")
+			switch rapid.IntRange(0, 4).Draw(t, "ifkind") {
+			case 0:
+				core = "if " + pick(t, "cond", rwConds) + " then " + pick(t, "br", rwBranches) + " else " + pick(t, "br", rwBranches) + " end"
+			case 1:
+				core = "(" + pick(t, "cond", rwConds) + ") " + pick(t, "bool", []string{"and", "or"}) + " (" + pick(t, "cond", rwConds) + ")"
+			case 2:
+				core = "if " + pick(t, "cond", rwConds) + " then (if " + pick(t, "cond", rwConds) + " then " + pick(t, "br", rwBranches) + " else " + pick(t, "br", rwBranches) + " end) else (if " + pick(t, "cond", rwConds) + " then " + pick(t, "br", rwBranches) + " else " + pick(t, "br", rwBranches) + " end) end"
+			case 3:
+				core = "if " + pick(t, "cond", rwConds) + " then " + pick(t, "br", rwBranches) + " elif " + pick(t, "cond", rwConds) + " then " + pick(t, "br", rwBranches) + " else " + pick(t, "br", rwBranches) + " end"
+			default:
+				core = "((" + pick(t, "cond", rwConds) + ") // (" + pick(t, "cond", rwConds) + ")) // " + pick(t, "br", rwBranches)
+			}
+		default:
+			c.feat("rw/tail")
+			core = pick(t, "tail", rwTail)
+		}
+		// random context around the core
+		n := rapid.IntRange(0, 2).Draw(t, "wraps")
+		for i := 0; i < n; i++ {
+			w := pick(t, "wrap", []string{"[%s]", "(%s) | %a", "%a | (%s)", "((%s)) + (%a)", "(%a) + ((%s))", "(%s), %a", "%a, (%s)", ". as $x | (%s)", "try (%s) catch .", "reduce (%s) as $v (0; . + 1)",
+				"first(%s)", "[limit(3; %s)]", "[path(%s)?]", "{a: (%s)}", "\"i\\(%s)\"", "[(%s) | tojson]", "(%s) as $v | [$v, $v]", "[.[]? | (%s)]", "label $z | (%s)", "(%s)?", "[(%s), (%s)] | length",
+				"[foreach (%s) as $v (0; . + 1; [$v, .])]", "(%s) | (%s)", "if (%s) then 1 else 2 end", "((%s) | 3) + 10", "[%a, (%s) | 0] | add?", "isempty(%s)", "1 as $x | ((2, $x) | (%s)) + 10"})
+			for strings.Contains(w, "%a") {
+				w = strings.Replace(w, "%a", hole(), 1)
+			}
+			core = strings.ReplaceAll(w, "%s", core)
+		}
+		fs := make([]string, 0, len(c.feats))
+		for f := range c.feats {
+			fs = append(fs, f)
+		}
+		sort.Strings(fs)
+		return Prog{Src: core, Features: fs}
+	})
+}
